@@ -136,7 +136,7 @@ Lemma audit_no_writable : forall vars fields calls copies cfields closures,
   audit vars fields calls copies cfields closures = true -> forall w, runtime_writable vars fields w = false.
 Proof.
   intros vars fields calls copies cfields closures A w. unfold audit in A.
-  apply andb_prop in A as [A _]. apply andb_prop in A as [A _]. apply andb_prop in A as [A _]. apply andb_prop in A as [A _]. apply andb_prop in A as [AV AF].
+  apply andb_prop in A as [A _]. apply andb_prop in A as [A _]. apply andb_prop in A as [A _]. apply andb_prop in A as [A _]. apply andb_prop in A as [A _]. apply andb_prop in A as [AV AF].
   unfold runtime_writable. apply orb_false_intro.
   - rewrite forallb_forall in AV.
     destruct (existsb _ vars) eqn:E; auto. apply existsb_exists in E as (v & IN & H).
